@@ -11,3 +11,4 @@ const HooksEnabled = false
 func worldShape(w *ecs.World) uint64     { return 0 }
 func worldInvariants(w *ecs.World) error { return nil }
 func setHookPoint(f func(site int))      {}
+func relTablesPerNode(w *ecs.World) int  { return 0 }
